@@ -178,6 +178,7 @@ def run_shard(ctx):
     from mindsdb_sql.planner import plan_query
     from mindsdb_sql.exceptions import PlanningException
     acc = ctx.acc
+    run_handbuilt(ctx)
     for i, cls, text, kw, desc in cases(ctx):
         if not ctx.mine(i):
             continue
@@ -232,6 +233,50 @@ def run_shard(ctx):
             acc.fail(sig, det)
         if len(acc.samples) < 5 and len(plan.steps) >= 3 and i % 13 == 0:
             acc.sample({'text': text[:300], 'catalog': desc, 'steps': [type(s).__name__ for s in plan.steps], 'well_formed': True})
+
+
+def handbuilt_cases():
+    """Trees an application builds itself (injected row sets as join members, with / without alias, with / without rows): the planner
+    answers with a plan or a PlanningException like for parsed statements."""
+    from mindsdb_sql.parser import ast as A
+    out = []
+    for rows in ([], [{'a': 1, 'b': 2}], [{'a': 1}, {'a': 2}]):
+        for alias in (None, 'd'):
+            for side in ('left', 'right'):
+                for other in ('int1.t1', 'mindsdb.m1'):
+                    def mk(rows=rows, alias=alias, side=side, other=other):
+                        d = A.Data(list(rows), alias=A.Identifier(alias) if alias else None)
+                        o = A.Identifier(other, alias=A.Identifier('t'))
+                        l_, r_ = (d, o) if side == 'left' else (o, d)
+                        return A.Select(targets=[A.Star()], from_table=A.Join(left=l_, right=r_, join_type='join',
+                                        condition=None if 'm1' in other else A.BinaryOperation('=', args=[A.Identifier('t.id'), A.Identifier((alias or 'x') + '.a')])))
+                    out.append((f'data-{len(rows)}rows-{"aliased" if alias else "unaliased"}-{side}-{other}', mk))
+    return out
+
+
+def run_handbuilt(ctx):
+    from mindsdb_sql.planner import plan_query
+    from mindsdb_sql.exceptions import PlanningException
+    acc = ctx.acc
+    for k, (label, mk) in enumerate(handbuilt_cases()):
+        if not ctx.mine(k):
+            continue
+        for form in (0, 1, 3):
+            kw, desc = fedgen.catalog(core.rng_for(ctx.seed, 'C09hb', k, form), form=form)
+            acc.ev()
+            acc.count('handbuilt_trees_planned')
+            try:
+                plan = plan_query(mk(), **kw)
+            except (PlanningException, NotImplementedError):
+                acc.count('planning_rejections')
+                continue
+            except Exception as e:
+                c = monitors.classify_exception(e)
+                acc.fail({'cond': 'internal-error', 'etype': c['etype'], 'func': c['func'], 'file': c['file'], 'class': 'hand-built'},
+                         {'tree': label, 'catalog': desc, 'error': f'{type(e).__name__}: {e}'[:300]})
+                continue
+            for sig, det in check_plan(plan):
+                acc.fail(dict(sig, **{'class': 'hand-built', 'partitioned': False}), dict(det, tree=label, catalog=desc))
 
 
 def replay(path):
